@@ -30,7 +30,12 @@ fn jump_model(op: O, d: &Dec, r: &[u64; 64]) -> (bool, i128) {
         O::JNZB => (reg(d.a) != 0, pc - (reg(d.b) + d.imm12 as i128 + 1) * 4),
         O::JNEF => (reg(d.a) != reg(d.b), pc + (reg(d.c) + d.d as i128 + 1) * 4),
         O::JNEB => (reg(d.a) != reg(d.b), pc - (reg(d.c) + d.d as i128 + 1) * 4),
-        O::JAL => (true, reg(d.b) + d.imm12 as i128 * 4),
+        // "$rA = $pc + 4; $pc = $rB + imm * 4", in that order: with $rA == $rB (a writable
+        // register) the target is taken from the freshly written link value
+        O::JAL => {
+            let base = if d.a == d.b && d.a >= 16 { pc + 4 } else { reg(d.b) };
+            (true, base + d.imm12 as i128 * 4)
+        }
         _ => (false, 0),
     }
 }
